@@ -60,11 +60,11 @@ PLAN = {
     "C01": (["default", "compact", "radix+format", "compact+radix+format"], ["pow2", "format", "radix", "compact+radix", "nostd"]),
     "C02": (["default", "compact", "radix+format"], ["pow2", "format", "radix", "compact+radix+format", "nostd"]),
     "C03": (["default", "compact", "pow2", "radix", "compact+radix", "radix+format"], ["compact+radix+format", "nostd"]),
-    "C05": (["pow2", "radix", "compact+radix", "radix+format"], ["compact+radix+format", "compact+pow2", "pow2+format"]),
-    "C06": (["pow2", "radix", "compact+radix", "radix+format"], ["compact+pow2", "pow2+format", "compact+radix+format"]),
-    "C07": (["radix", "compact+radix", "radix+format"], ["compact+radix+format"]),
+    "C05": (["pow2", "radix", "compact+radix", "radix+format"], ["compact+radix+format", "compact+pow2", "pow2+format", "radix+nostd", "compact+radix+nostd"]),
+    "C06": (["pow2", "radix", "compact+radix", "radix+format"], ["compact+pow2", "pow2+format", "compact+radix+format", "radix+nostd"]),
+    "C07": (["radix", "compact+radix", "radix+format", "radix+nostd"], ["compact+radix+format", "compact+radix+nostd"]),
     "C08": (["default", "radix", "format", "radix+format"], ["compact", "pow2", "compact+radix+format", "pow2+format"]),
-    "C09": (["default", "compact", "compact:checked", "pow2", "radix+format", "radix+format:checked"], ["compact+radix+format", "default:checked", "format", "radix", "compact+radix+format:checked"]),
+    "C09": (["default", "compact", "compact:checked", "pow2", "format", "radix+format", "radix+format:checked"], ["compact+radix+format", "default:checked", "radix", "compact+radix+format:checked", "compact+format"]),
     "C10": (["default", "default:checked", "radix+format", "radix+format:checked", "compact+radix+format"], ["compact", "compact:checked", "format", "compact+radix+format:checked", "radix", "pow2+format"]),
     "C11": (["default", "compact", "radix+format", "compact+radix+format"], ["format", "radix", "pow2+format"]),
     "C12": (["format", "radix+format", "compact+radix+format"], ["pow2+format", "compact+format"]),
